@@ -227,6 +227,12 @@ theorem fib_build_exact {P : Problem Int} {k : Nat} (hw : ∀ a b, 0 ≤ P.w a b
   obtain ⟨ch, hch⟩ := fibRow_refines hw h
   exact row_geodesic hw (Or.inr rfl) hch v hv
 
+/-- **fib_build_total**: and it always returns — on uniform lists with non-negative weights the concrete-heap build
+    never reaches an error state of the heap model (C16 `no_oob` / `no_corrupt`, used per operation), never indexes out
+    of bounds and never exhausts `fuelFor`. -/
+theorem fib_build_total {P : Problem Int} {k : Nat} (hwf : WF P k) (hw : ∀ a b, 0 ≤ P.w a b) {src : Nat}
+    (hs : src < P.N) : ∃ r, fibRow P k src src = .ok r := fibRow_ok hwf hw hs
+
 /-- not vacuous: on the 3-sample example the concrete-heap model returns the geodesic rows -/
 example : fibAllPairs { flagWitness with w := fun _ _ => (1 : Int) } =
     .ok [#v[some 0, none, some 1], #v[some 1, some 0, some 2], #v[none, none, some 0]] := by decide
